@@ -155,7 +155,7 @@ class Chains:
             # an operation's result stays in play while the dense array it stands for is well defined - also when the
             # library has left an entry without rows behind (C07's business at that step, but what later operations
             # make of it is part of this history)
-            pool = [p for p in pool if wellformed(p, allow_empty=True)]
+            pool = [p for p in pool if wellformed(p, allow_empty=True) and self._same_kind(p, U)]
             if not pool:
                 pool = [self.rand_index(U, shape)]
             idx = rnd.choice(pool)
@@ -165,6 +165,13 @@ class Chains:
                 pool.append(new)
                 if len(pool) > 4:
                     pool.pop(rnd.randrange(len(pool) - 1))
+
+    @staticmethod
+    def _same_kind(idx, U):
+        """steering only: an index whose values are no longer of the universe's kind (strings turned into integers by a
+        faulty operation - that event is judged on its own) cannot be steered any further"""
+        want = str if isinstance(U[0], str) else int
+        return isinstance(idx.common, want) and all(isinstance(k[0], want) for k in dict.keys(idx))
 
     def ops_for(self, idx, big, strs=False):
         nd = len(idx.shape)
